@@ -437,12 +437,21 @@ class Kernel:
         return self.fatal
 
 
+def scratch_root():
+    """tmpfs when there is one (fast, and nothing is left on disk), otherwise a fixed directory under /var/tmp"""
+    if os.path.isdir('/dev/shm') and os.access('/dev/shm', os.W_OK | os.X_OK):
+        return '/dev/shm'
+    d = '/var/tmp/dsim-scratch'
+    os.makedirs(d, exist_ok=True)
+    return d
+
+
 def make_sandbox(tag, seed):
     """per-run scratch directory with a name that is a pure function of the seed (digits only vary), so that a
     replay sees byte-identical paths; the suffix only grows when the same seed is being run concurrently"""
     k = 0
     while True:
-        d = f'/dev/shm/dsim-{tag}-{seed}-{k}'
+        d = f'{scratch_root()}/dsim-{tag}-{seed}-{k}'
         try:
             os.mkdir(d, 0o700)
             return d
